@@ -77,4 +77,7 @@ theorem mapDel_encChans (cs : List String) (t : String) (hn : cs.Nodup) :
       simp [h', hb, ih hn'.2, Val.ofList]
 
 
+theorem not_panic_of_fx {o : Out} {l : List Val} (h : o.fx = some l) : o.isPanic = false := by
+  cases o <;> simp [Out.fx, Out.isPanic] at h ⊢
+
 end Jrpc.Trans
